@@ -23,7 +23,8 @@ namespace tlx {
 
 /*!
  * Join a vector of strings using a separator character. If any string contains
- * the separator, quote the field. In the quoted string, escape all quotes,
+ * the separator, is empty or starts with a quote, quote the field. In the
+ * quoted string, escape all quotes,
  * escapes, \\n, \\r, \\t sequences. This is the opposite of split_quoted().
  */
 std::string join_quoted(const std::vector<std::string>& strs, char sep,
